@@ -192,6 +192,23 @@ def _real_jit(fam, e, op0, has_mask):
             close, msg = trees_close(got, eager, rtol=tol)
             if not close:
                 return f'{name} differs from eager: {msg}'
+        # a FRESH instance whose very first use happens under a trace, and is then used again eagerly and under a second jit:
+        # nothing computed during the first trace may stay on the instance
+        try:
+            op1 = build_concrete(fam, e)
+        except Exception:  # noqa: BLE001
+            op1 = None
+        if op1 is not None:
+            try:
+                first = jax.jit(lambda x: op1.mv(x))(x)
+                after = op1.mv(x)
+                again = jax.jit(lambda x: jax.tree.map(lambda l: 2 * l, op1.mv(x)))(x)
+            except Exception as ex:  # noqa: BLE001
+                return f'an instance first applied under jax.jit cannot be used again: {type(ex).__name__}: {str(ex)[:120]}'
+            for name, got in (('first jitted use', first), ('eager use after a jitted first use', after), ('second jit', jax.tree.map(lambda l: l / 2, again))):
+                close, msg = trees_close(got, eager, rtol=tol)
+                if not close:
+                    return f'{name} differs from eager on a fresh instance: {msg}'
         if not has_mask:
             try:
                 arg = eqx.filter_jit(lambda op, x: op.mv(x))(op0, x)
